@@ -22,7 +22,7 @@ RULE = ('E2 breadth-first search over rewrite sequences (depth = number of rewri
         'only within their composition-name class), replace a data-card run by nR / nM / nI shorthand or expand '
         'it; sites capped per card at the first, middle and last token boundary; states de-duplicated on deck '
         'text; invariant: the parsed output (surfaces, volumes, compositions numerically, GEOMCOMP, boundary '
-        'conditions) equals that of the base deck; non-trivial = text differs from the base deck')
+        'conditions) equals that of the base deck; non-trivial = text differs from the base deck; base deck E: LIKE n BUT cards with IMP / MAT / RHO / *TRCL overrides')
 ASSUMPTIONS = ['the listed rewrites are MCNP-equivalent (MCNP manual: card format, continuation, comments, '
                'message block, number formats, nR/nI/nM/nJ)',
                'compositions are compared numerically (fractions are echoed verbatim by the writer)']
